@@ -290,8 +290,12 @@ func check(w *world) {
 				seen := protocol.ID(f[1])
 				outcome = fmt.Sprintf("%s-ok:%s:h%d", path, op.proto, id)
 				o.Logf("  %s -> %s stream %s on conn %d, reply from h%d seeing %q nonce %s", desc, path, op.proto, op.connIdx, id, seen, f[2])
-				if f[2] != op.nonce {
-					o.Violate("C07/cross-talk/foreign-nonce", "%s: sent nonce %s, reply carries %s", desc, op.nonce, f[2])
+				want := op.nonce
+				if op.plan.use == useReadOnly {
+					want = "EOF" // the handler saw a clean EOF instead of a nonce
+				}
+				if f[2] != want {
+					o.Violate("C07/cross-talk/foreign-nonce", "%s: expected nonce field %s, reply carries %s", desc, want, f[2])
 				}
 				if seen == "" {
 					o.Violate("C07/handler-on-unbound-stream/"+hostKind(w.p.blankB)+"-listener"+refusalTag(op), "%s: handler %d ran on a stream whose Protocol() is empty (not charged to any protocol scope)", desc, id)
@@ -331,13 +335,17 @@ func check(w *world) {
 				if op.plan.use == useCloseWrite {
 					o.Probe("close-write-before-read")
 				}
+				if op.plan.use == useReadOnly {
+					o.Probe("read-only-client-" + path)
+				}
 				if op.plan.use == useDuplex {
 					o.Probe("first-read-races-first-write-" + path)
 				}
 			}
 			// handler runs carrying this open's nonce
 			switch {
-			case op.plan.use == useUnused:
+			case op.plan.use == useUnused || op.plan.use == useReadOnly:
+				// no nonce sent: attributed per round below
 			case op.useErr != "":
 				if len(ivs) > 0 && !op.faultArmed {
 					o.Violate("C07/handler-ran-for-failed-open", "%s: first use failed (%s) yet %s ran and read the nonce", desc, op.useErr, ivs[0].in)
@@ -395,7 +403,7 @@ func check(w *world) {
 			if op.faultArmed {
 				faulty = true
 			}
-			if op.openErr == "" && op.plan.use == useUnused {
+			if op.openErr == "" && (op.plan.use == useUnused || op.plan.use == useReadOnly) {
 				cand = append(cand, op)
 			}
 		}
